@@ -97,6 +97,8 @@ def events_for(fam, ks, vals="xy"):
                     ev += [("add", k, "z")]                  # a third value: removing the middle one leaves a hole in the ordinals
             elif vals == "xy":
                 ev += [("pin", k, (v1, v1, v2))]             # a list may repeat a value
+            if vals == "xy":
+                ev += [("pin", k, ())]                       # pinned to nothing: the key reads empty afterwards
     return ev
 
 
@@ -167,7 +169,7 @@ def model_step(fam, model, ev):
         if fam == "ioset":
             vals = list(dict.fromkeys(vals))
         m[k] = vals
-        return True, m
+        return (True if vals else "any"), m       # (what pin returns when there is nothing to write is not documented)
     if op == "pop":
         if not cur:
             return None, m
@@ -326,7 +328,7 @@ def execute(sys_, fam, ks, hist, last_only):
             step.append(("raises:%s:%s:%s" % (opname, type(ex).__name__, kcls),
                          "%s raised %r at %s; history %r" % (text, ex, site_of(ex), sofar)))
         else:
-            if res != want or type(res) is not type(want):
+            if want != "any" and (res != want or type(res) is not type(want)):
                 step.append(("result:%s:%s" % (opname, kcls), "%s returned %r, model %r; history %r" % (text, res, want, sofar)))
         obs = observe(fam, sub, ks)
         raw = sys_.raw()
